@@ -302,6 +302,25 @@ def check_markov(rng, nr):
     return None
 
 
+def check_large_grid():
+    """grids with more points than a 16-bit index can address: every routine returning (index, weight) must still reproduce the query point from its bracket"""
+    from sequence_jacobian.utilities import interpolate as ip
+    x = np.linspace(0.0, 7.0, 70000)
+    xq = np.array([0.0, 1e-5, 3.1234567, 6.55, 6.5537, 6.99999, 7.0, 7.5, -0.2])
+    xs = np.sort(xq)
+    for nm, f, q in (('interpolate_coord_robust', ip.interpolate_coord_robust, xq), ('interpolate_coord', ip.interpolate_coord, xs),
+                     ('interpolate_coord_robust (2-D queries)', ip.interpolate_coord_robust, xq.reshape(3, 3))):
+        i, pi = f(x, q)
+        i = np.asarray(i).astype(np.int64)
+        rec = pi * x[i] + (1 - pi) * x[i + 1]
+        inside = (q >= x[0]) & (q <= x[-1])
+        if np.abs(rec - q).max() > 1e-9 or np.any((x[i] > q + 1e-12)[inside]) or np.any((x[i + 1] < q - 1e-12)[inside]):
+            k = int(np.argmax(np.abs(rec - q)))
+            return dict(what=f'{nm} on a 70000-point grid: the returned (index, weight) pair does not reproduce / bracket the query point', input=dict(kind='large-grid', n=70000, query=float(np.ravel(q)[k])),
+                        observed=dict(index=int(np.ravel(i)[k]), reconstructed=float(np.ravel(rec)[k])), signature=dict(op='large-grid', routine=nm))
+    return None
+
+
 def oracle(ctx, hints, broken):
     rng = ctx['rng']
     nr = np.random.default_rng(ctx['seed'] + 17)
@@ -316,8 +335,13 @@ def oracle(ctx, hints, broken):
                 import traceback
                 v = dict(what=f'{f.__name__} raised {type(ex).__name__}: {ex}', input=dict(kind='raise', trace=traceback.format_exc()[-500:]), signature=dict(op='raise', f=f.__name__))
             C.push(viol, v)
+    n += 1
+    try:
+        C.push(viol, check_large_grid())
+    except Exception as ex:
+        C.push(viol, dict(what=f'check_large_grid raised {type(ex).__name__}: {ex}', input=dict(kind='large-grid'), signature=dict(op='raise', f='check_large_grid')))
     return dict(evaluations=n, violations=viol,
-                rule='random real grids and queries (on-grid, outside, C/Fortran/transposed layouts, broadcast shapes): reconstruction, bracketing, agreement '
+                rule='a 70000-point grid (indices beyond 16 bits): every coordinate routine reproduces the query; random real grids and queries (on-grid, outside, C/Fortran/transposed layouts, broadcast shapes): reconstruction, bracketing, agreement '
                      'of robust / monotone / njit / interpolate_y with direct linear interpolation incl. extrapolation; grid constructors; Rouwenhorst '
                      'and Tauchen (normalize on/off) moments; stationary() raise')
 
